@@ -93,26 +93,28 @@ Lemma mask_fail : forall g out, passed out = false /\ is_failure out = true ->
   passed (mask g out) = false /\ is_failure (mask g out) = true.
 Proof. intros [|m] out H; simpl; auto. Qed.
 
-Lemma load_all_inl : forall P id s op g us out,
-  load_all P id s op g us = inl out -> passed out = false /\ is_failure out = true.
+Lemma load_all_inl : forall P id s op g us cs out,
+  load_all P id s op g us cs = inl out -> passed out = false /\ is_failure out = true.
 Proof.
-  induction us as [|u t IH]; intros out H; simpl in H; [discriminate|].
+  induction us as [|u t IH]; intros cs out H; simpl in H; [discriminate|].
   destruct (load1 P id s op u) as [o1|o] eqn:E1.
   - inversion H; subst. apply mask_fail. eapply load1_inl; eauto.
-  - destruct (load_all P id s op g t) as [o2|os] eqn:E2; [|discriminate].
-    inversion H; subst. now apply IH.
+  - destruct (negb (hd true cs)); [inversion H; subst; auto|].
+    destruct (load_all P id s op g t (tl cs)) as [o2|os] eqn:E2; [|discriminate].
+    inversion H; subst. eapply IH; eauto.
 Qed.
 
-Lemma load_all_inr : forall P id s op g us os,
-  load_all P id s op g us = inr os ->
+Lemma load_all_inr : forall P id s op g us cs os,
+  load_all P id s op g us cs = inr os ->
   (forall u o, In (Some u) us -> find_obj u (objs s) = Some o -> allowed_obj P id op o = true) /\
   (forall o, In o os -> exists u, In (Some u) us /\ find_obj u (objs s) = Some o /\ allowed_obj P id op o = true).
 Proof.
-  induction us as [|u t IH]; intros os H; simpl in H.
+  induction us as [|u t IH]; intros cs os H; simpl in H.
   - inversion H; subst. split; [intros ? ? []|intros ? []].
   - destruct (load1 P id s op u) as [o1|o] eqn:E1; [discriminate|].
-    destruct (load_all P id s op g t) as [o2|os'] eqn:E2; [discriminate|].
-    inversion H; subst. destruct (IH _ eq_refl) as [IH1 IH2].
+    destruct (negb (hd true cs)); [discriminate|].
+    destruct (load_all P id s op g t (tl cs)) as [o2|os'] eqn:E2; [discriminate|].
+    inversion H; subst. destruct (IH _ _ E2) as [IH1 IH2].
     apply load1_inr in E1. destruct E1 as [us [-> [Ef Ea]]]. split.
     + intros u' o' [He|Hin] Hf.
       * inversion He; subst. congruence.
@@ -126,7 +128,7 @@ Lemma run_sites_inl : forall P id s ph r sites out,
   run_sites P id s ph r sites = inl out -> passed out = false /\ is_failure out = true.
 Proof.
   induction sites as [|[src g op|op] t IH]; intros out H; simpl in H; [discriminate| |].
-  - destruct (load_all P id s op g (site_uids src r ph)) as [o1|os] eqn:E1.
+  - destruct (load_all P id s op g (site_uids src r ph) (site_checks src r)) as [o1|os] eqn:E1.
     + inversion H; subst. eapply load_all_inl; eauto.
     + destruct (run_sites P id s ph r t) as [o2|ld]; [|discriminate]. inversion H; subst. now apply IH.
   - destruct (run_sites P id s ph r t) as [o2|ld]; [|discriminate]. inversion H; subst. now apply IH.
@@ -145,7 +147,7 @@ Proof.
     + intros ? ? ? ? ? [].
     + intros ? [].
     + intros ? [].
-  - destruct (load_all P id s op g (site_uids src r ph)) as [o1|os] eqn:E1; [discriminate|].
+  - destruct (load_all P id s op g (site_uids src r ph) (site_checks src r)) as [o1|os] eqn:E1; [discriminate|].
     destruct (run_sites P id s ph r t) as [o2|ld'] eqn:E2; [discriminate|].
     inversion H; subst. simpl. destruct (IH _ eq_refl) as [I1 [I2 I3]].
     apply load_all_inr in E1. destruct E1 as [A1 A2]. split; [|split].
